@@ -7,7 +7,7 @@ import QipVerif.Model.Route
 
 A gate is `NAME/controls/targets/arg/extra` (comma-separated naturals, may be empty);
 `NAME` is one of the names the router distinguishes, `o<k>` for any other gate, `m<k>` for a
-`Measurement`.  `variant=wxyz[c]` with bits for (modFix, roleFix, argFix, measFix[, ccFix]); default `fixed` (= `11110`).
+`Measurement`.  `variant=wxyz[c[r]]` with bits for (modFix, roleFix, argFix, measFix[, ccFix[, rzFix]]); default `fixed` (= `111100`).
 Answer: `ok G;G;…` | `err shape` | `err notimpl` | `err value` | `bad-op`.
 -/
 open QipVerif QipVerif.Proto QipVerif.Route
@@ -17,6 +17,7 @@ def parseName (s : String) : Option GName :=
   | "CNOT" => some .CNOT | "CSIGN" => some .CSIGN | "SWAP" => some .SWAP | "ISWAP" => some .ISWAP
   | "SQRTISWAP" => some .SQRTISWAP | "SQRTSWAP" => some .SQRTSWAP | "BERKELEY" => some .BERKELEY
   | "SWAPalpha" => some .SWAPalpha
+  | "RZX" => some .RZX
   | _ =>
     if s.startsWith "o" then ((s.drop 1).toString.toNat?).map GName.other
     else if s.startsWith "m" then ((s.drop 1).toString.toNat?).map GName.meas
@@ -25,7 +26,7 @@ def parseName (s : String) : Option GName :=
 def showName : GName → String
   | .CNOT => "CNOT" | .CSIGN => "CSIGN" | .SWAP => "SWAP" | .ISWAP => "ISWAP"
   | .SQRTISWAP => "SQRTISWAP" | .SQRTSWAP => "SQRTSWAP" | .BERKELEY => "BERKELEY"
-  | .SWAPalpha => "SWAPalpha" | .other k => s!"o{k}" | .meas k => s!"m{k}"
+  | .SWAPalpha => "SWAPalpha" | .RZX => "RZX" | .other k => s!"o{k}" | .meas k => s!"m{k}"
 
 def parseGate (s : String) : Option Gate :=
   match s.splitOn "/" with
@@ -54,11 +55,15 @@ def parseVariant (fs : List String) : Option Variant :=
   | some s =>
     match s.toList with
     | [a, b, c, d] =>
-      if [a, b, c, d].all (fun ch => ch = '0' || ch = '1') then some ⟨a = '1', b = '1', c = '1', d = '1', false⟩
+      if [a, b, c, d].all (fun ch => ch = '0' || ch = '1') then some ⟨a = '1', b = '1', c = '1', d = '1', false, false⟩
       else none
     | [a, b, c, d, x] =>
       if [a, b, c, d, x].all (fun ch => ch = '0' || ch = '1') then
-        some ⟨a = '1', b = '1', c = '1', d = '1', x = '1'⟩
+        some ⟨a = '1', b = '1', c = '1', d = '1', x = '1', false⟩
+      else none
+    | [a, b, c, d, x, y] =>
+      if [a, b, c, d, x, y].all (fun ch => ch = '0' || ch = '1') then
+        some ⟨a = '1', b = '1', c = '1', d = '1', x = '1', y = '1'⟩
       else none
     | _ => none
 
